@@ -35,6 +35,7 @@ from typing import Any
 
 from happysimulator.core.entity import Entity
 from happysimulator.core.event import Event
+from happysimulator.core.sim_future import SimFuture
 
 logger = logging.getLogger(__name__)
 
@@ -207,9 +208,11 @@ class RWLock(Entity):
         enqueue_time = self._clock.now.nanoseconds if self._clock else 0
 
         acquired = [False]
+        woken = SimFuture()  # the waiting process parks on this (waiting costs no events)
 
         def on_wake():
             acquired[0] = True
+            woken.resolve(True)
 
         waiter = _Waiter(
             waiter_type=_WaiterType.READER,
@@ -219,7 +222,7 @@ class RWLock(Entity):
         self._waiters.append(waiter)
 
         while not acquired[0]:
-            yield 0.0
+            yield woken
 
         self._read_acquisitions += 1
 
@@ -244,9 +247,11 @@ class RWLock(Entity):
         enqueue_time = self._clock.now.nanoseconds if self._clock else 0
 
         acquired = [False]
+        woken = SimFuture()  # the waiting process parks on this (waiting costs no events)
 
         def on_wake():
             acquired[0] = True
+            woken.resolve(True)
 
         waiter = _Waiter(
             waiter_type=_WaiterType.WRITER,
@@ -256,7 +261,7 @@ class RWLock(Entity):
         self._waiters.append(waiter)
 
         while not acquired[0]:
-            yield 0.0
+            yield woken
 
         self._write_acquisitions += 1
 
